@@ -31,7 +31,8 @@ TAGGED = ["!record [a]", "!record {fields: [a, b]}", "!record {fields: {a: }}", 
           "!array {items: int, dimensions: {x: -2}}", "!array {items: int, dimensions: [[a]]}", "!array {items: int, dimensions: 99999999999}",
           "!array {dimensions: 2}", "!map {keys: int}", "!map {values: int}", "!map {keys: [int, string], values: int}", "!map 3",
           "!stream {items: int}", "!stream 3", "!generic {name: Gen}", "!generic {args: [int]}", "!generic {name: 3, args: 4}",
-          "!generic {name: Gen, args: int}", "!protocol {sequence: [a]}", "!protocol {sequence: {a: }}", "!protocol 7", "!bogus {a: 1}",
+          "!generic {name: Gen, args: int}", "!generic [a]", "!generic 3", "!generic {name: Gen, args: [null]}", "!generic {name: Gen, args: ~}",
+          "!generic {name: Gen, args: [~, int]}", "!protocol {sequence: [a]}", "!protocol {sequence: {a: }}", "!protocol 7", "!bogus {a: 1}",
           "!!python/object:x {}", "&a [*a]", "{a: 1}", "[[[[[[[[[[int]]]]]]]]]]", "[int, [string, [float]]]", "[null, null]", "[null]"]
 EXPRS = ["a", "a + b", "a +", "+ a", "a ** b ** c", "-a ** b", "a[0]", "a[]", "a[0, 1, 2, 3]", "a[x: 0]", "a[x:0, 1]", "a[-1]", "a[99999999999999999999]",
          "size(a)", "size()", "size(a, 0)", "size(a, 'x')", "size(a, 9999999999999999999999)", "size(a, -1)", "size(v, 1)", "size(m, 0)",
@@ -40,9 +41,21 @@ EXPRS = ["a", "a + b", "a +", "+ a", "a ** b ** c", "-a ** b", "a[0]", "a[]", "a
          "size(fa, 0)", "size(fa, 1)", "size(fa, 2)", "size(fa, 18446744073709551615)", "size(fa, 18446744073709551616)", "size(fa, 18446744073709551617)",
          "size(fa, 9223372036854775808)", "size(a, 18446744073709551616)", "fa[18446744073709551616, 0]", "v[18446744073709551616]", "v[4294967296]",
          "fa[0, 9223372036854775808]", "size(fa, 'y')", "dimensionIndex(fa, 'y')", "dimensionIndex(a, 'x')", "dimensionIndex(a, 3)", "dimensionCount(a)", "dimensionCount(1)", "nope(a)", "a.b.c", "r.x", "r.nope", "1.x",
-         "'s' + 1", "1 / 0", "1.5e999", "0x", "0xFFFFFFFFFFFFFFFFFFFFFFFFF", "a as int", "a as int[0]", "a as", "as", "x as Nope", "a as Rec",
+         "'s' + 1", "1 / 0", "089", "08 + 1", "a[09]", "size(a, 08)", "-09", "1.5e999", "0x", "0xFFFFFFFFFFFFFFFFFFFFFFFFF", "a as int", "a as int[0]", "a as", "as", "x as Nope", "a as Rec",
          "(a", "a)", "((((((((((a))))))))))", "a, b", "\"unterminated", "!switch a", "a ? b : c", "a && b", "1 +" * 300 + "1", "(" * 300 + "1" + ")" * 300,
          "u", "u.x", "size(u)", "o + 1", "s[0]", "v[v[v[0]]]", "m['k']", "m[0]", "m[]", "e", "e + 1", "☃", ""]
+CORPUS = [
+    "X: !generic [a]\n",
+    "R: !record\n  fields:\n    a: int\nX: !generic {name: R, args: [null]}\n",
+    "R: !record\n  fields:\n    a: int\nX: !generic {name: R, args: ~}\n",
+    "R: !record\n  fields:\n    a: int\n  computedFields:\n    x: 089\n",
+    "A: B\nB: A\nE: !enum {base: A, values: [a]}\n",
+    "A: B\nB: A\nE: !flags\n  base: B\n  values: [a]\n",
+    "R: !record {fields: {a: int}, computedFields: {x:\n1}}\n",
+    "R: !record {fields: {a: int}, computedFields: {x:\na + 1}}\n",
+    "null: !record\n  fields:\n    a: int\n",
+    "R: !record\n  fields:\n    v: int*3\n  computedFields:\n    c: v as int[0]\n",
+]
 BASE = ("Rec: !record\n  fields:\n    x: int32\n\nGen<T>: !record\n  fields:\n    v: T\n\nEn: !enum\n  values: [p, q]\n\nFl: !flags\n  values: [p, q]\n\n")
 
 
@@ -145,6 +158,9 @@ def run(ctx):
         rc0, out0, _ = run_case(ctx, 900000 + len(label), {"m/m.yml": text}, ok_pkg, "validate")
         if rc0 != 0:
             raise RuntimeError("the %s carrier model of the fuzz harness is rejected by yardl: %s" % (label, out0[-300:]))
+    # corpus of inputs that once crashed the front end (each repaired in /repo, see known_findings.json): they run first
+    for text in CORPUS:
+        cases.append(("corpus", {"m/m.yml": text}, ok_pkg, "validate"))
     for t in TYPE_ATOMS + TAGGED:
         cases.append(("type", {"m/m.yml": model_with_type(t)}, ok_pkg, "validate"))
         cases.append(("type-in-field", {"m/m.yml": model_with_field(t)}, ok_pkg, "validate"))
